@@ -555,27 +555,36 @@ def _run_real(dirpath, cfg, seeds, full_parse):
     return ('ok', nodes, edges)
 
 
-def run_real(dirpath, cfg, seeds, full_parse):
+def run_real(dirpath, cfg, seeds, full_parse, expect_abs=None):
     """run the real Scheduler.  Loki keeps interpreter-global state: rarely the outcome of a full parse depends on
     projects handled earlier in the same process (AssertionError 'Missing type information for variable symbol',
     not reproducible in a fresh interpreter).  An error the model does not know is therefore re-examined in a fresh
-    interpreter, and that verdict is the one reported."""
+    interpreter, and that verdict is the one reported.  With two paths equal up to case the discovered project depends
+    on set() order, i.e. on the hash seed: the fresh interpreter is started with hash seeds 0, 1, … until its exported
+    abstraction equals ``expect_abs`` (the one the request carries)."""
     res = _run_real(dirpath, cfg, seeds, full_parse)
     if res[0] == 'error' and res[1] not in MODELLED_ERRORS:
         import json
+        import os
         import subprocess
         import sys
-        payload = json.dumps(dict(dir=str(dirpath), cfg=cfg, seeds=list(seeds), fp=full_parse))
-        code = ('import json,sys\nfrom harness.props import c21\nd=json.loads(sys.stdin.read())\n'
-                'r=c21._run_real(d["dir"],d["cfg"],d["seeds"],d["fp"])\nprint("C21RESULT"+json.dumps(r))')
-        p = subprocess.run([sys.executable, '-W', 'ignore', '-c', code], input=payload, text=True, capture_output=True,
-                           cwd=str(Path(__file__).resolve().parent.parent.parent), timeout=600)
-        for line in p.stdout.splitlines():
-            if line.startswith('C21RESULT'):
-                r = json.loads(line[len('C21RESULT'):])
-                if r[0] == 'ok':
-                    return ('ok', [tuple(x) for x in r[1]], [tuple(x) for x in r[2]])
-                return tuple(r)
+        payload = json.dumps(dict(dir=str(dirpath), cfg=cfg, seeds=list(seeds), fp=full_parse, abs=expect_abs))
+        code = ('import json,sys\nfrom harness.props import c21\nfrom harness.sexpr import dumps\n'
+                'd=json.loads(sys.stdin.read())\n'
+                'ok = d["abs"] is None or dumps(c21.export_abs(d["dir"])) == d["abs"]\n'
+                'r=c21._run_real(d["dir"],d["cfg"],d["seeds"],d["fp"]) if ok else None\n'
+                'print("C21RESULT"+json.dumps([ok, r]))')
+        for hs in range(16):
+            env = dict(os.environ, PYTHONHASHSEED=str(hs))
+            p = subprocess.run([sys.executable, '-W', 'ignore', '-c', code], input=payload, text=True, capture_output=True,
+                               cwd=str(Path(__file__).resolve().parent.parent.parent), timeout=600, env=env)
+            for line in p.stdout.splitlines():
+                if line.startswith('C21RESULT'):
+                    ok, r = json.loads(line[len('C21RESULT'):])
+                    if ok:
+                        if r[0] == 'ok':
+                            return ('ok', [tuple(x) for x in r[1]], [tuple(x) for x in r[2]])
+                        return tuple(r)
     return res
 
 
@@ -938,7 +947,7 @@ class C21(Prop):
         return {'LokiModel/Generated/C21Tables.lean': text}
 
     def gen(self, rng, tier):
-        nproj = {'quick': 40, 'thorough': 420, 'search': 120}.get(tier, 40)
+        nproj = {'quick': 24, 'thorough': 420, 'search': 120}.get(tier, 24)
         ncfg = {'quick': 4, 'thorough': 6, 'search': 5}.get(tier, 4)
         for p in range(nproj):
             collide = (p % 7 == 3)
@@ -969,7 +978,7 @@ class C21(Prop):
         d = project_dir(proj)
         if dumps(export_abs(d)) != dumps(field(req, 'abs')):
             return [A('error'), A('stale-abstraction')]
-        res = run_real(d, cfg, seeds, fullparse)
+        res = run_real(d, cfg, seeds, fullparse, expect_abs=dumps(field(req, 'abs')))
         if res[0] == 'error':
             return [A('error'), A(res[1])]
         return [A('ok'), [A('nodes')] + [[n, A(k)] for n, k in res[1]], [A('edges')] + [[a, b] for a, b in res[2]]]
